@@ -251,6 +251,12 @@ class CompileCase:
         if D.FORMS["rng"] is not None and D.FORMS["rng"].random() < 0.3:
             level = D.FORMS["rng"].choice({0: (0, -1, -4), 1: (1,), 2: (2, 3, 7)}[min(max(compact, 0), 2)])
         pmap = self.parameters or None
+        if pmap is None and D.FORMS["rng"] is not None and D.FORMS["rng"].random() < 0.3:
+            # set-up code that collects `{name: sym for ... if symbolic}` and ends up with nothing symbolic: an EMPTY mapping
+            import collections
+
+            pmap = D.FORMS["rng"].choice((dict, collections.OrderedDict))()
+            D.FORM_STATS["to_function: an empty parameters mapping"] = D.FORM_STATS.get("to_function: an empty parameters mapping", 0) + 1
         if pmap and D.FORMS["rng"] is not None and D.FORMS["rng"].random() < 0.25:
             # the declared parameters held in another kind of mapping (link and model parameters chained, a read-only view, ...)
             import collections
@@ -265,7 +271,7 @@ class CompileCase:
                 lambda: collections.UserDict(dict(items)),
                 lambda: collections.OrderedDict(items)))()
             D.FORM_STATS["to_function: parameters held in " + type(pmap).__name__] = D.FORM_STATS.get("to_function: parameters held in " + type(pmap).__name__, 0) + 1
-        assert pmap is None or list(pmap) == list(self.parameters)
+        assert not pmap or list(pmap) == list(self.parameters)
         vals = {"net": self.built.net, "compact": level, "more_out": more_out, "parameters": pmap}
         before = list(self.parameters.items())
         try:
